@@ -1,7 +1,7 @@
 """C11 -- oversized and >4 GiB inputs are rejected cleanly; fed length reported exactly."""
 from .. import sym
 from ..norm import n, P, C, V, ANY, match, find_all, binop
-from . import common, cmpmodel
+from . import common, cmpmodel, panics
 
 ID = "C11"
 CONFIGS = {"quick": ["K0"], "thorough": ["K0", "K1", "K7", "K8"]}
@@ -19,7 +19,7 @@ META = {
     ),
     "trusted_base": ["rustc nightly front end and constant evaluator"],
     "assumptions": ["x86_64 target (usize is 64 bit)"],
-    "not_decided": ["exactness of the byte counter for every sequence of piece sizes", "the tail update after a truncated piece",
+    "not_decided": ["exactness of the byte counter for every sequence of piece sizes (value correctness of the tail after a truncated piece)",
                     "equality with the reference at exactly MAX bytes (C01 at a boundary)"],
 }
 
@@ -29,6 +29,15 @@ def run(ctx, FS):
         consts(ctx, F)
         reported(ctx, F)
         guards(ctx, F)
+        no_panic(ctx, F)
+
+
+def no_panic(ctx, F):
+    r = "R-11.4"
+    ctx.rule(r, "update()/processed_len() never panic: every overflow check, slice window, copy and subtraction in them is discharged from the dominating "
+                "comparisons (interval + linear relational reasoning over path conditions), for any slice length and any generator state reachable through the API")
+    roots = [b.path for b in F.bodies if b.name in ("update", "processed_len") and b.kind == "AssocFn" and "generate::" in b.path]
+    sites = panics.check(ctx, r, F, roots, floor=20)
 
 
 def consts(ctx, F):
@@ -111,6 +120,31 @@ def reported(ctx, F):
         ctx.ob(r, ("generate::Generator::processed_len", "forwards"),
                got == ("call", "generate::public::GeneratorType::processed_len", (("ref", ("field", ("deref", P(1)), 0)),)),
                "outer processed_len is %s" % (sym.fmt(got) if got else got), cfg=F.key, where=ob.where())
+
+
+def encoder_unwrap_ok(F):
+    """True iff on every path of finalize reaching LengthEncoding::new(len).unwrap() the too-large class is excluded."""
+    M, err = common.finalize_model(F)
+    if M is None:
+        return False
+    tab, e2 = common.enum_decision(F, "length::DataLengthValidity::is_err_on", {1: "length::DataLengthValidity", 2: "length::DataLengthProcessingMode"})
+    reach = 0
+    for p in M.paths:
+        calls = [c for c in p["p"].calls if c[1] == "core::option::Option::<T>::unwrap" and n(c[2][0])[0] == "call" and n(c[2][0])[1] == "length::FuzzyHashLengthEncoding::new"]
+        if not calls:
+            continue
+        reach += 1
+        ev = p["events"] if p["events"] is not None else _events_prefix(M, p)
+        gate = [e for e in ev if e[0] == "len_gate"]
+        val = [e for e in ev if e[0] == "validity"]
+        excluded = False
+        if gate and gate[0][1] is False:
+            excluded = tab is not None and all(tab[("TooLarge", m)][1] == ("const", 1) for m in ("Optimistic", "Conservative"))
+        elif val:
+            excluded = (val[0][1].startswith("not:") and "TooLarge" in val[0][1][4:].split(",")) or (not val[0][1].startswith("not:") and val[0][1] != "TooLarge")
+        if not excluded:
+            return False
+    return reach > 0
 
 
 def _events_prefix(M, p):
